@@ -447,3 +447,43 @@ Theorem C01_end_to_end_dedup_irrelevant : forall fuel P c1 c2,
        output_spec fuel P (main_args P inp) out1 /\ output_spec fuel P (main_args P inp) out2).
 Proof. exact end_to_end_dedup_irrelevant. Qed.
 Print Assumptions C01_end_to_end_dedup_irrelevant.
+
+(* ------------------------------------------------------------------ and WITHOUT the "stuck on no arm
+   matches" escape (Exhaust/ExhSound.v, Compile/Final.v): with the exhaustiveness check of the real
+   algorithm among the Boolean premises ([exh_fns]: every match / let / for pattern list of the
+   program passes Useful.check_exhaustive on the translated patterns), Sem.v is never stuck, and the
+   end-to-end statement becomes EXACT: the evaluated circuit returns the value or the panic of the
+   source semantics, nothing else.  (At the level of Wt.v alone this is false - [wt_covered]'s strict
+   type equalities are needed: ExhSound.ExhExamples.wt_level_strengthening_false.) *)
+From GV Require Import Exhaust.ExhSem Exhaust.ExhSound Compile.Final.
+
+Theorem C01_covered_exhaustive_programs_agree : forall P fuel fw fT args o outs, (fw <= Wt.wt_fuel)%nat ->
+  wt_covered fw P = true -> exh_fns P = true ->
+  TSemSemFull.canonical_main_args P args = true -> tsem_program fT P args = Ok (o, outs) ->
+  (exists bits l, Sem.run_main fuel P args = Sem.RunOk bits l /\ o = None /\ outs = bits) \/
+  (exists r m, Sem.run_main fuel P args = Sem.RunPanic r m /\ o = Some (preason_num (pr r), PanicSem.ploc32 (ploc_of m))) \/
+  Sem.run_main fuel P args = Sem.RunNoFuel.
+Proof. exact wt_covered_exh_agrees. Qed.
+Print Assumptions C01_covered_exhaustive_programs_agree.
+
+Theorem C01_end_to_end_exact : forall fuel dedup P c,
+  certified_exh fuel P = true -> within_gate_bound fuel dedup P = true ->
+  lower_program_with fuel dedup P = Ok (LCircuit c) ->
+  ssa_validate c = None /\ input_gates c = fst (main_wiring P) /\
+  forall ins inp,
+    load_inputs (input_gates c) ins = Some inp ->
+    TSemSemFull.canonical_main_args P (main_args P inp) = true ->
+    exists out, ssa_eval c ins = Some out /\ output_exact fuel P (main_args P inp) out.
+Proof. exact end_to_end_exact. Qed.
+Print Assumptions C01_end_to_end_exact.
+
+Theorem C01_end_to_end_register_exact : forall fuel dedup P c,
+  certified_exh fuel P = true -> within_gate_bound fuel dedup P = true ->
+  lower_program_with fuel dedup P = Ok (LCircuit c) ->
+  exists rc, RegAlloc.convert c = Ok rc /\ Reg.reg_validate rc = Ok None /\ Reg.input_regs rc = fst (main_wiring P) /\
+  forall ins inp,
+    load_inputs (Reg.input_regs rc) ins = Some inp ->
+    TSemSemFull.canonical_main_args P (main_args P inp) = true ->
+    exists out, Reg.reg_eval rc ins = Some out /\ output_exact fuel P (main_args P inp) out.
+Proof. exact end_to_end_register_exact. Qed.
+Print Assumptions C01_end_to_end_register_exact.
